@@ -136,3 +136,34 @@ package internal
 //@   mode bv
 //@   props C11
 //@   decoder
+
+// Index.Add (C04, C15). The records of one reference arrive sorted by start,
+// references in increasing order, file chunks in increasing offset order. Under
+// that precondition Add never fails and never panics, and afterwards the record
+// just added can be found: its bin holds a chunk that covers the record's
+// chunk, and every 16 KiB tile the record overlaps exists in the linear index
+// with an offset not beyond the record's chunk. The tile bound (no tile offset
+// beyond the newest chunk) is re-established for the next call, and the
+// statistics count exactly the records added.
+//@ uninterp func recRefID(r Record) int
+//@ uninterp func recStart(r Record) int
+//@ uninterp func recEnd(r Record) int
+//@ trusted func ext:github.com/biogo/hts/internal.Record.RefID
+//@   ensures result == recRefID(self)
+//@ trusted func ext:github.com/biogo/hts/internal.Record.Start
+//@   ensures result == recStart(self)
+//@ trusted func ext:github.com/biogo/hts/internal.Record.End
+//@   ensures result == recEnd(self)
+//@ trusted func ext:errors.New
+//@   ensures result != nil
+//@ func IsValidIndexPos
+//@   inline
+//@ func vOffset
+//@   inline
+//@ func isZero
+//@   inline
+//@ spec func voff(o bgzf.Offset) int64 = o.File<<16 | int64(o.Block)
+//@ spec func sortedNext(i *Index, r Record) bool = 0 <= recRefID(r) && recRefID(r) <= 1048576 && len(i.Refs) <= 1048576 &&
+//@     recRefID(r) >= len(i.Refs) - 1 && (recRefID(r) == len(i.Refs) - 1 ==> recStart(r) >= i.LastRecord) &&
+//@     0 <= recStart(r) && recStart(r) < recEnd(r) && recEnd(r) <= 536870911
+//@ spec func tilesBelow(iv []bgzf.Offset, o bgzf.Offset) bool = forall t in 0..len(iv) :: voff(iv[t]) <= voff(o)
